@@ -71,6 +71,17 @@ def choices(tree: ber.Node) -> t.List[Choice]:
                 out.append((i, "junk", "prim"))
                 out.append((i, "junk", "cons"))
                 out.append((i, "junk", "hightag"))  # multi-octet identifier + long-form length on the unknown element
+                # unknown elements of other classes whose NUMBER coincides with a field the type does define
+                # ([1] [7] [10] [11] BOOLEAN ENUMERATED): recognising a field by number alone would swallow them.
+                # Not where the element could legitimately be read as one of the type's own remaining OPTIONALs.
+                name = note.get("name")
+                has_value = any((c.note or {}).get("path", "").endswith("controlValue") for c in n.children or [])
+                if name not in ("Control", "SaslCredentials") or (name == "Control" and has_value):
+                    out.append((i, "junk", "ubool"))
+                    out.append((i, "junk", "uoctets"))
+                out.append((i, "junk", "app7"))
+                out.append((i, "junk", "priv10"))
+                out.append((i, "junk", "app1-11"))
     return out
 
 
@@ -99,6 +110,16 @@ def render(tree: ber.Node, chosen: t.Sequence[Choice]) -> bytes:
         elif kind == "junk":
             if opt == "prim":
                 n.children.append(ber.Node(ber.CONTEXT, False, 25, b"\x01\x02"))
+            elif opt == "ubool":
+                n.children.append(ber.Node(ber.UNIVERSAL, False, 1, b"\xff"))
+            elif opt == "uoctets":
+                n.children.append(ber.Node(ber.UNIVERSAL, False, 4, b"junk"))
+            elif opt == "app7":
+                n.children.append(ber.Node(ber.APPLICATION, False, 7, b"abc"))
+            elif opt == "priv10":
+                n.children.append(ber.Node(ber.PRIVATE, False, 10, b"9.9.9"))
+            elif opt == "app1-11":
+                n.children += [ber.Node(ber.APPLICATION, False, 1, b"q"), ber.Node(ber.PRIVATE, False, 11, b"r"), ber.Node(ber.UNIVERSAL, False, 10, b"\x05"), ber.Node(ber.APPLICATION, False, 3, b"")]
             elif opt == "hightag":
                 # content chosen so that a mis-read length would expose bytes that parse as further elements
                 inner = ber.encode(ber.Node(ber.CONTEXT, True, 0, None, [ber.Node(ber.UNIVERSAL, True, 16, None, [ber.Node(ber.UNIVERSAL, False, 4, b"9.9"), ber.Node(ber.UNIVERSAL, False, 1, b"\xff")])]))
@@ -234,7 +255,7 @@ def _work(job: t.Tuple[str, int, int]) -> evid.Local:
             for i in range(nn):
                 per.append([None, (i, "len", "84")])
             for c in ch:
-                if c[1] != "len" and not (c[1] == "true" and c[2] == b"\x80") and not (c[1] == "junk" and c[2] in ("cons", "hightag")):
+                if c[1] != "len" and not (c[1] == "true" and c[2] == b"\x80") and not (c[1] == "junk" and c[2] != "prim"):
                     per.append([None, c])
             todo = (tuple(c for c in combo if c is not None) for combo in itertools.product(*per))
         for chosen in todo:
@@ -292,7 +313,7 @@ def run(ctx: evid.Ctx) -> None:
         "one case = one assignment of encoding freedoms to the nodes of one base message's reference TLV tree, rendered to "
         "bytes and decoded by the library; distinct_nontrivial counts distinct (message kind, set of freedoms used)"
     )
-    ctx.bounds = {"length_forms": ["min"] + LENFORMS, "true_octets": ["ff", "01", "80"], "trailing": ["[25] primitive", "[26] constructed", "[1024] primitive, 0x82 length"],
+    ctx.bounds = {"length_forms": ["min"] + LENFORMS, "true_octets": ["ff", "01", "80"], "trailing": ["[25] primitive", "[26] constructed", "[1024] primitive, 0x82 length", "UNIVERSAL BOOLEAN / OCTET STRING / ENUMERATED", "[APPLICATION 1/3/7]", "[PRIVATE 10/11]"],
                   "singles_on": "full(2)+dev(1) of U", "pairs_on": "rich + default messages with <= %d nodes%s" % (40 if thorough else 25, " and every full(2)+dev(1) message" if thorough else ""),
                   "product_on": "messages with <= %d nodes (lengths min|0x84 x every other freedom on|off)" % (11 if thorough else 9)}  # fmt: skip
     ctx.assumptions = [
